@@ -185,11 +185,14 @@ def run_pattern(sp0, flags, k, number, opts_pf, tier):
             feeders = {o["op"] for o in sp["ops"] if o["op"] in ("circ_pump_mass", "circ_pump_pressure") and o.get("in_service", True)}
             sep = any(o["op"] == "heat_consumer" and o.get("in_service", True) for o in sp["ops"]) or any(
                 o["op"] == "flow_control" and o.get("in_service", True) and o.get("control_active", True) for o in sp["ops"])
+            an_u = supply.analyse(sp, pc_directed=False)
+            undirected_unsupplied = {jidx[j] for j in jidx if j not in an_u["supplied"]}
+            cause = "pressure_controller_direction" if rep == (undirected_unsupplied | oos) else "other"
             vs.append(viol("unsupplied_vs_solver", "flags off %s: unsupplied_junctions+out-of-service = %s, junctions without pressure "
                            "result = %s (only graph %s, only solver %s)" % (off, sorted(rep), sorted(nanset), only_graph, only_solver),
                            direction="graph_reports_more" if only_graph and not only_solver else (
                                "solver_nan_more" if only_solver and not only_graph else "both"),
-                           circ_pump_feeder=bool(feeders), separating_controller=sep, **tag))
+                           cause=cause, **tag))
     # (2)-(5) graph structure under option sets
     nflags_off = len(off)
     for gopts in option_sets(tier, nflags_off):
@@ -225,14 +228,14 @@ def run_pattern(sp0, flags, k, number, opts_pf, tier):
                         bad = ("extra", extra[0], got[extra[0]])
                 if bad:
                     vs.append(viol("edge_census", "flags off %s, options %s: edge %s %s: %s" % (off, gopts, bad[0], bad[1], bad[2]),
-                                   kind=bad[0], table=str(bad[1][0]), opt="+".join(sorted(gopts)) or "default", **tag))
+                                   kind=bad[0], table=str(bad[1][0]), **tag))
                     continue
             # connected components
             got_c = sorted(map(frozenset, __import__("networkx").connected_components(g)), key=lambda s: sorted(s))
             exp_c = components(exp, exp_nodes)
             if got_c != exp_c:
                 vs.append(viol("graph_components", "flags off %s, options %s, multi=%s: components %s, expected %s" % (
-                    off, gopts, multi, [sorted(c) for c in got_c], [sorted(c) for c in exp_c]), opt="+".join(sorted(gopts)) or "default", **tag))
+                    off, gopts, multi, [sorted(c) for c in got_c], [sorted(c) for c in exp_c]), **tag))
         if not gopts:
             # default graph: components = hydraulic islands of the solver model
             isl_edges = {}
@@ -252,8 +255,16 @@ def run_pattern(sp0, flags, k, number, opts_pf, tier):
             g = top.create_nxgraph(net)
             got_c = sorted(map(frozenset, __import__("networkx").connected_components(g)), key=lambda s: sorted(s))
             if got_c != islands:
+                # would the components be right if prescribed-flow elements (active flow controllers, heat consumers) connected?
+                merged = dict(isl_edges)
+                for o in sp["ops"]:
+                    if (o["op"] == "heat_consumer" or (o["op"] == "flow_control" and o.get("control_active", True))) and o.get("in_service", True):
+                        a, b = supply.ends(o)
+                        if jins[a] and jins[b]:
+                            merged[idmap[o["id"]]] = (jidx[a], jidx[b], 0.0)
+                cause = "prescribed_flow_elements_connect" if got_c == components(merged, set(nodes_in)) else "other"
                 vs.append(viol("components_vs_islands", "flags off %s: graph components %s, hydraulic islands %s" % (
-                    off, [sorted(c) for c in got_c], [sorted(c) for c in islands]), **tag))
+                    off, [sorted(c) for c in got_c], [sorted(c) for c in islands]), cause=cause, **tag))
             # distances
             exp = edge_census(sp, idmap, {})
             for src in nodes_in[:2]:
